@@ -21,6 +21,9 @@ def evaluate(e, env):
         return e.value
     if isinstance(e, ast.Name):
         return env.get(e.id, UNKNOWN)
+    if isinstance(e, ast.Attribute) and e.attr.isupper() and not any(isinstance(n, ast.Call) for n in ast.walk(e)):
+        # an enumeration member / class constant (return_status.IGNORED): a symbolic constant, equal only to itself
+        return ('const', e.attr)
     if isinstance(e, ast.UnaryOp) and isinstance(e.op, ast.Not):
         v = evaluate(e.operand, env)
         return UNKNOWN if v is UNKNOWN else (not v)
@@ -44,9 +47,9 @@ def evaluate(e, env):
             return UNKNOWN
         op = e.ops[0]
         if isinstance(op, (ast.Is, ast.Eq)):
-            return (a is b) if isinstance(op, ast.Is) else (a == b)
+            return a == b
         if isinstance(op, (ast.IsNot, ast.NotEq)):
-            return (a is not b) if isinstance(op, ast.IsNot) else (a != b)
+            return a != b
     return UNKNOWN
 
 
@@ -82,7 +85,7 @@ def simulate(g, start, stops, env, track=()):
                 for nm in ast.walk(t):
                     if isinstance(nm, ast.Name) and isinstance(nm.ctx, ast.Store):
                         val = evaluate(v, e) if (v is not None and isinstance(t, ast.Name)) else UNKNOWN
-                        if val is UNKNOWN or not (val is None or isinstance(val, bool)):
+                        if val is UNKNOWN or not (val is None or isinstance(val, bool) or (isinstance(val, tuple) and val and val[0] == 'const')):
                             new.pop(nm.id, None)
                         else:
                             new[nm.id] = val
